@@ -360,7 +360,17 @@ def replay(ctx, payload):
     from dali import frame as fr
     v = payload.get("failure", {})
     line = v.get("input", "")
+    if not isinstance(line, str):
+        line = ""
     m = Model("m_frame")
+    if not line:
+        print("re-running the oracle and looking for the same key")
+        corr = __import__("common").Corr()
+        correspond(ctx, corr)
+        hits = [x for x in corr.violations if x["key"] == v.get("key")]
+        for x in hits[:3]:
+            print(x)
+        return bool(hits)
     parts = line.split()
     name, bits, data = parts[0], int(parts[1]), int(parts[2])
 
@@ -376,8 +386,14 @@ def replay(ctx, payload):
         raise ValueError(t)
     if name in ("add", "eq", "ne"):
         ops = [fr.Frame(int(parts[3]), int(parts[4]))] if parts[3] != "-" else [None]
-    elif name in ("pack", "packlen", "str", "new"):
-        print("replay of view cases: run the quick check"); return True
+    elif name in ("pack", "packlen", "str", "new") or not line:
+        print("re-running the oracle and looking for the same key")
+        corr = __import__("common").Corr()
+        correspond(ctx, corr)
+        hits = [x for x in corr.violations if x["key"] == v.get("key")]
+        for x in hits[:3]:
+            print(x)
+        return bool(hits)
     else:
         ops = [untok(t) for t in parts[3:]]
     ans, _ = impl_op(fr.Frame, bits, data, name, ops)
